@@ -88,3 +88,26 @@ Fixpoint c03_from (reqs : list (string * request)) (done : list (bool * string))
   | _ :: tr' => c03_from reqs done (S i) tr'
   end.
 Definition C03_mon (tr : list (directive * list obs)) : list viol := c03_from [] [] 0 tr.
+
+(* ---------- 301 alone, as a monitor with state (proved empty for every schedule: Proofs/PT03.v) ----------
+   The state maps a coroutine id to the request it carries; an id taken by a background coroutine maps to None. *)
+Definition rmap := list (string * option request).
+
+Definition lookup_req (id : string) (m : rmap) : option request :=
+  match find (fun e => String.eqb (fst e) id) m with Some (_, Some q) => Some q | _ => None end.
+
+Definition h301 (m : rmap) (now : Z) (d : db) (dir : directive) (ob : list obs) : rmap * list Z :=
+  match dir with
+  | DTick _ _ bgs arrive =>
+    let m' := (map (fun x => (fst x, None)) bgs ++ map (fun x => (fst x, Some (snd x))) arrive ++ m)%list in
+    (m', flat_map (fun o => match o with
+                            | OInst id _ (Some rsp) =>
+                              match lookup_req id m' with
+                              | Some q => if c03_resp q rsp then [] else [301]
+                              | None => []
+                              end
+                            | _ => [] end) ob)
+  | _ => (m, [])
+  end.
+
+Definition C03a_mon (tr : list (directive * list obs)) : list viol := hmon_from rmap h301 [] 0 db0 0 tr.
